@@ -1059,6 +1059,56 @@ class Models:
                     res.append(s2)
             return res
 
+        @reg("std::iter::Iterator::enumerate")
+        def enumerate_(c):
+            # a view of the inner iterator plus the running index
+            out = dict(c.args[0][0])
+            out[("$enum",)] = ICONST(0)
+            c.set_dest(out)
+            return [c.st]
+
+        @reg("<std::iter::Enumerate<I> as std::iter::Iterator>::next")
+        def enum_next(c):
+            eng = c.eng
+            prog = eng.prog
+            v = c.argv(0)
+            if v[0] != "r":
+                return None
+            ti = prog.peel_refs(c.args[0][1]) if c.args[0][1] is not None else None
+            inner = prog.types[ti].get("args", [None])[0] if ti is not None else None
+            s_ = prog.types[inner]["s"] if inner is not None else ""
+            if "slice::Iter<" in s_ or "slice::IterMut<" in s_ or "vec_deque::Iter<" in s_:
+                fn = iter_next
+            elif "ops::Range<" in s_:
+                fn = range_next
+            else:
+                return None
+            eng.symctr += 1
+            tmp = ("L", c.fr.id, ("enumnext", c.bb, eng.symctr))
+            c2 = Call(eng, c.st, c.fr, c.bb, c.t, c.base, c.args, (tmp, (), None), None)
+            outs = fn(c2)
+            if outs is None:
+                return None
+            res = []
+            for s2 in outs:
+                rsub = eng.subtree(s2, tmp, ())
+                s2.store.pop(tmp, None)
+                d = rsub.get(("$discr",))
+                if d is not None and const_of(d) == 1:
+                    cnt = eng.read(s2, v[1], tuple(v[2]) + ("$enum",))
+                    if cnt[0] != "i":
+                        cnt = I(lin.var(eng.fresh("enum", (0, ISIZE_MAX))))
+                    eng.write(s2, v[1], tuple(v[2]) + ("$enum",), I(lin.add(cnt[1], lin.const(1))), c.node)
+                    out = {("$discr",): ICONST(1), (("v", 1), 0, 0): cnt}
+                    for k, vv in rsub.items():
+                        if k[:2] == (("v", 1), 0):
+                            out[(("v", 1), 0, 1) + k[2:]] = vv
+                    c.set_dest(out, s2)
+                else:
+                    c.set_dest({("$discr",): ICONST(0)}, s2)
+                res.append(s2)
+            return res
+
         @reg("<std::slice::Iter<'a, T> as std::iter::Iterator>::position")
         def position(c):
             v = c.argv(0)
